@@ -76,6 +76,10 @@ def gen_case(rng, idx):
         c["alias_xb"] = True          # the caller passes the SAME array as b and as x (x0 = b)
     if rng.random() < 0.18 and c["definite"] == "pd":
         c["gscale"] = 10.0 ** rng.choice([-12, -10, -8, -6, -4, 4, 8])
+    if n in (4, 6, 8, 9, 10, 12) and rng.random() < 0.3 and not c.get("alias_xb") and pre in (None, "spd", "jacobi"):
+        a = {4: 2, 6: 2, 8: 2, 9: 3, 10: 2, 12: 3}[n]
+        c["layout2d"] = dict(shape=[a, n // a], kind=rng.choice(["F", "T-view", "volume-slice"]))
+        c["form"] = "function"
     r = rng.random()
     if r < 0.06:
         c["definite"] = "negative"
@@ -165,6 +169,10 @@ def corpus_cases():
         out.append(dict(base, n=3, max_iter=2, npseed=30 + k, pre=pre, cplx=True, form="function"))
         out.append(dict(base, n=4, max_iter=1, npseed=40 + k, pre=pre))
     out.append(dict(base, n=5, max_iter=8, npseed=50, alias_xb=True))
+    # 2-D iterates in layouts that cannot be flattened as a view: the updates must still land in the caller's array
+    out.append(dict(base, n=6, max_iter=6, npseed=55, form="function", x0k="random", layout2d=dict(shape=[2, 3], kind="volume-slice")))
+    out.append(dict(base, n=8, max_iter=9, npseed=56, form="function", cplx=True, pre="spd", layout2d=dict(shape=[2, 4], kind="T-view")))
+    out.append(dict(base, n=9, max_iter=4, npseed=57, form="function", layout2d=dict(shape=[3, 3], kind="F")))
     # tiny / huge data: every formula of the recurrence is scale free
     out.append(dict(base, n=5, max_iter=8, npseed=52, gscale=1e-10, x0k="random"))
     out.append(dict(base, n=4, max_iter=7, npseed=53, gscale=1e-8, cplx=True, pre="spd", form="function"))
@@ -211,7 +219,8 @@ def emb_mat(m):
 
 
 def observe(alg):
-    return dict(x=np.array(alg.x, copy=True), r=np.array(alg.r, copy=True), p=np.array(alg.p, copy=True),
+    colv = lambda v: np.array(v, copy=True, order="C").reshape(-1, 1)       # noqa: E731  (a COPY; 2-D iterates as C-order columns)
+    return dict(x=colv(alg.x), r=colv(alg.r), p=colv(alg.p),
                 rz=float(alg.rzold), resid=float(alg.resid), iter=int(alg.iter),
                 npd=bool(alg.not_positive_definite), done=bool(alg.done()))
 
@@ -223,7 +232,25 @@ def run_impl(sp, c, arrays=None):
     b_arg = b.copy()
     if c.get("alias_xb"):
         b_arg = x                                     # one array passed as b AND as x
-    if c["form"] == "linop":
+    lay = c.get("layout2d")
+    if lay:
+        # the caller's iterate is a genuinely 2-D array in a memory layout that cannot be flattened without a copy
+        # (Fortran order / transposed view / a slice of a volume); values and C-order flattening are those of the column case
+        sh = tuple(lay["shape"])
+        x2 = x0.reshape(sh)
+        if lay["kind"] == "F":
+            x = np.asfortranarray(x2.copy())
+        elif lay["kind"] == "T-view":
+            x = np.ascontiguousarray(x2.T).T
+        else:
+            vol = np.full((sh[0], 3, sh[1]), 7.5, dtype=x0.dtype)
+            x = vol[:, 1, :]
+            x[...] = x2
+        b_arg = b.reshape(sh).copy()
+        col = lambda v: np.ascontiguousarray(v).reshape(n, 1)          # noqa: E731
+        Aop = lambda v: (A @ col(v)).reshape(sh)                       # noqa: E731
+        Pop = None if P is None else (lambda v: (P @ col(v)).reshape(sh))
+    elif c["form"] == "linop":
         Aop = sp.linop.MatMul([n, 1], A)
         Pop = None if P is None else sp.linop.MatMul([n, 1], P)
     else:
@@ -239,18 +266,19 @@ def run_impl(sp, c, arrays=None):
     obs = [observe(alg)]
     canon = None            # number of updates the canonical loop `while not done: update` performs
     same_object = alg.x is x
-    caller_obs = [x.copy()]                               # the CALLER's array (not alg.x) after __init__ / every update
+    ccol = (lambda v: np.array(v, copy=True, order="C").reshape(-1, 1)) if lay else (lambda v: v.copy())
+    caller_obs = [ccol(x)]                                # the CALLER's array (not alg.x) after __init__ / every update
     for k in range(c["max_iter"]):
         if canon is None and obs[-1]["done"]:
             canon = k
         alg.update()
         obs.append(observe(alg))
-        caller_obs.append(x.copy())
+        caller_obs.append(ccol(x))
         same_object = same_object and (alg.x is x)
     if canon is None:
         canon = c["max_iter"]
     return dict(A=A, P=P, b=b, x0=x0, tol=tol, obs=obs, canon=canon, same_object=same_object,
-                caller_x=x, caller_obs=caller_obs, x_dtype_in=str(x0.dtype), b_after=b_arg, alg=alg)
+                caller_x=x, caller_obs=caller_obs, x_dtype_in=str(x0.dtype), b_after=b_arg.reshape(b.shape) if lay else b_arg, alg=alg)
 
 
 # ---------------------------------------------------------------- Coq side
@@ -361,7 +389,7 @@ def oracle(c, R):
     # single-precision storage of x (mixed runs): absolute allowance for everything that is recomputed from x
     xround = 1e-5 * xmax if mixed else 0.0
     # in place / caller's array
-    if not R["same_object"] or not np.array_equal(R["caller_x"], obs[-1]["x"], equal_nan=True) \
+    if not R["same_object"] or not np.array_equal(np.ascontiguousarray(R["caller_x"]).reshape(-1, 1), obs[-1]["x"], equal_nan=True) \
             or not np.shares_memory(R["caller_x"], R["alg"].x):
         bad.append(("inplace", "solution is not written into the caller's array (passed as %s)" % R["x_dtype_in"],
                     {"caller_array_after": emb_vec(R["caller_x"]).tolist(), "alg_x_after": emb_vec(obs[-1]["x"]).tolist(),
